@@ -135,7 +135,7 @@ func VerifHarness_C13_channel_confirmation() {
 // Inbound side: the queue never blocks the client's receive path; ReadFrom returns exactly what was
 // queued, honours Close and the read deadline.
 //
-//verif:props=C13,C09 unwind=1100 bounds="queue filled to capacity (1024) then one more; payloads 0..8 bytes; ReadFrom buffer 0..8 bytes"
+//verif:props=C13,C09,C18 unwind=1100 bounds="queue filled to capacity (1024) then one more; payloads 0..8 bytes; ReadFrom buffer 0..8 bytes"
 func VerifHarness_C13_inbound() {
 	fc := &vClient{fixed: vReactSuccess}
 	c := vNewUDPConn(fc)
@@ -167,6 +167,8 @@ func VerifHarness_C13_inbound() {
 	vAssert(err2 != nil, "C13.read_after_close_fails")
 	vAssert(fc.deallocated == 1, "C13.close_deallocates_once")
 	vAssert(c.Close() == errAlreadyClosed, "C13.second_close_reports_already_closed")
+	vAssert(vLocksHeld() == 0, "C18.repeated_close_leaves_no_lock_held")
+	vAssert(c.Close() == errAlreadyClosed, "C13.third_close_reports_already_closed")
 	vReach("end")
 }
 
